@@ -1,5 +1,7 @@
 (* Model/CertSelect.v — which certificates a signature is checked under:
-   MetaData.certs (mdstore.py 388-428) over MetadataStore.__getitem__ (first
+   MetaData.certs (mdstore.py 388-428, as repaired by proposed_fix/C03-1: a key
+   descriptor without X509Data - kd_certs = [] - contributes nothing) over
+   MetadataStore.__getitem__ (first
    source/entity with that id wins), and the selection part of
    SecurityContext._check_signature (sigver.py 1447-1494), composed with the
    per-certificate loop of Model/Sigver.v for a symbolic signature that
@@ -67,6 +69,31 @@ Definition tool_for (signer cert : N) : tool_result :=
 Definition check_signature (metadata_present : bool) (m : mdstore) (issuer : option str)
            (only_md : bool) (embedded : list N) (signer : N) : result unit :=
   match candidate_certs metadata_present m issuer only_md embedded with
+  | Err e => Err e
+  | Ok certs => check_signature_runs false (map (tool_for signer) certs) false true
+  end.
+
+(* ---- the code BEFORE proposed_fix/C03-1: key[key_info][x509_data] raised KeyError for a use-matching key
+   descriptor without X509Data, anywhere in the entity; _check_signature swallowed it as "no certificates
+   from metadata" ---- *)
+Definition lacks_x509 (use : str) (e : entity) : bool :=
+  existsb (existsb (fun kd => use_matches use kd && nilb (kd_certs kd))) e.
+Definition md_certs_before_fix (m : mdstore) (eid : option str) (use : str) : option (list N) :=
+  match eid with
+  | None => None
+  | Some i => match find_entity m i with
+              | None => None
+              | Some e => if lacks_x509 use e then None else Some (flat_map (fun r => extract_certs use r []) e)
+              end
+  end.
+Definition candidate_certs_before_fix (metadata_present : bool) (m : mdstore) (issuer : option str)
+           (only_md : bool) (embedded : list N) : result (list N) :=
+  let from_md := if metadata_present then match md_certs_before_fix m issuer SIGNING with Some l => l | None => [] end else [] in
+  let certs := if nilb from_md && negb only_md then embedded else from_md in
+  match certs with [] => Err (s2l "MissingKey") | _ => Ok certs end.
+Definition check_signature_before_fix (metadata_present : bool) (m : mdstore) (issuer : option str)
+           (only_md : bool) (embedded : list N) (signer : N) : result unit :=
+  match candidate_certs_before_fix metadata_present m issuer only_md embedded with
   | Err e => Err e
   | Ok certs => check_signature_runs false (map (tool_for signer) certs) false true
   end.
